@@ -35,6 +35,8 @@ type Entry struct {
 	LastUpdateSignatureVerifyFailed bool
 	LastUpdateSignature             *crlreader.CRLReadResult
 	Loaded                          bool
+	//Closed is set when the repository was closed, the store can not be used anymore
+	Closed bool
 	//only used temporary
 	Chains *core.CertificateChains
 }
@@ -317,6 +319,10 @@ func (R *Repository) checkCrl(certificate *x509.Certificate, identifier string) 
 	if repositoryEntry != nil {
 		repositoryEntry.entryLock.RLock()
 		defer repositoryEntry.entryLock.RUnlock()
+		if repositoryEntry.Closed {
+			//the status can not be determined anymore, never answer "not revoked" because of a shutdown
+			return nil, errors.New("could not get revocation status from repository: repository was closed")
+		}
 		if repositoryEntry.Loaded {
 			status, err := repositoryEntry.CRLStore.GetCertRevocationStatus(issuerRDNSequence, certificate.SerialNumber)
 			if err != nil {
@@ -636,5 +642,6 @@ func (R *Repository) closeRepositoryEntry(entry *Entry, id string) {
 	entry.entryLock.Lock()
 	defer entry.entryLock.Unlock()
 	entry.CRLStore.Close()
-	R.crlRepository[id] = nil
+	//the entry stays in the repository: a lookup racing with or following the shutdown must fail, not skip this crl
+	entry.Closed = true
 }
